@@ -134,6 +134,52 @@ def runChain {α} (attr : Option Rat) (a : Samples α) : List (Step α) → List
     | .error e => [.error e]
     | .ok r => .ok r :: runChain attr r rest
 
+/-! ## call signatures: how Python binds positional and keyword arguments
+
+  The closedness flags of `crop_dim` are declared `(right_closed, left_closed)`, those of
+  `extend_dim` `(…, eps, left_closed, right_closed)`: a caller who passes them positionally in the
+  documented order relies on exactly this order for "closed or open at each end as asked".  The
+  tables below are the model's argument order; they are compared with `inspect.signature` of the
+  current source on every run (Tie 1, obligation `signature-order`), and the JSON glue binds the
+  positional arguments of a request through `bindArgs` with these tables. -/
+
+def sigCropDim : List String := ["arr", "dim", "start", "stop", "right_closed", "left_closed", "eps"]
+def sigExtendDim : List String :=
+  ["arr", "dim", "start", "stop", "fill_value", "eps", "left_closed", "right_closed"]
+def sigCropDimWidth : List String := ["array", "dim", "width", "position"]
+def sigExtendDimWidth : List String := ["array", "dim", "width", "fill_value", "position"]
+def sigAdjustDimWidth : List String := ["array", "dim", "width", "fill_value", "position"]
+def sigGetDimStep : List String := ["arr", "dim", "rtol", "atol", "check_tolerance", "estimate_step"]
+def sigEstimateDimStep : List String := ["data", "rtol", "atol", "check_tolerance"]
+
+/-- the documented parameters are the leading positional parameters of the current signature, in
+    this order (further parameters may follow them: they cannot be reached by a documented call) -/
+def sigOK (doc current : List String) : Bool := doc.isPrefixOf current
+
+/-- Python's argument binding for a function whose positional-or-keyword parameters are `params`:
+    positional arguments go to the leading parameters in order; a keyword argument must name one
+    of the remaining parameters (`TypeError` = `none`: too many positional arguments, an unknown
+    keyword, or a parameter given twice). -/
+def bindArgs {β} (params : List String) (pos : List β) (kw : List (String × β)) : Option (List (String × β)) :=
+  if params.length < pos.length then none
+  else if kw.any (fun p => !(params.drop pos.length).contains p.1) then none
+  else some (params.zip pos ++ kw)
+
+/-! ## sessions: independent calls in one process -/
+
+/-- one call of a session: the array (with its step attribute) as it is when the call is made -/
+structure Call (α : Type) where
+  attr : Option Rat
+  arr : Samples α
+  step : Step α
+
+/-- a session: consecutive calls in one process, each on its own argument.  The model has no state:
+    whatever was called before (with the same array and other options, the same axis and other data,
+    an array object that was changed in between, a result the caller wrote into), call `k` returns
+    what the operation returns for the content its argument has at that moment. -/
+def runSession {α} (cs : List (Call α)) : List (Except AErr (Samples α)) :=
+  cs.map (fun c => applyStep c.attr c.arr c.step)
+
 end SE.Axis
 
 
